@@ -29,7 +29,7 @@ func Intrinsic(data []byte, creation bool) uint64 {
 
 // TxKinds lists the transaction classes DrawTx produces.
 var TxKinds = []string{"transfer", "transfer-new", "transfer-precompile", "store-set", "store-clear", "multistore", "multiclear", "emit",
-	"reverter", "oog", "invalid", "forward", "forward-nested", "creator", "create", "create-failing", "suicide", "recursor", "bouncer", "random-code", "call-then-fail", "blockhash", "blockhash", "call-loop", "call-loop", "touch-created", "touch-created", "codesize", "codesize"}
+	"reverter", "oog", "invalid", "forward", "forward-nested", "creator", "create", "create-failing", "suicide", "recursor", "bouncer", "random-code", "call-then-fail", "call-then-fail", "blockhash", "blockhash", "blockhash", "call-loop", "touch-created", "codesize"}
 
 // TxCtx is what the transaction generator may look at.
 type TxCtx struct {
